@@ -192,7 +192,7 @@ def ccode(s):
     code = 0
     for c in reversed(s):
         code = code * 4 + _TD[c]
-    return f"{code}%N"
+    return f"{hex(code)}%N"      # hexadecimal: Coq converts a long decimal literal in quadratic time
 
 
 def ccnf(ops):
@@ -604,15 +604,23 @@ def coq_side(ctx: Ctx, st: State, gen_ok: bool, gen_nf_ok: bool = False, gen_pv_
     ):
         if not cases:
             continue
-        if fast and len(fasts[name][0]) == len(cases):
+        use_fast = fast and len(fasts[name][0]) == len(cases)
+        lits = fasts[name][0] if use_fast else cases
+        # identical cases (the same single operation on the same operands occurs inside many formulas) are evaluated once
+        first: dict[str, int] = {}
+        for i, lit in enumerate(lits):
+            first.setdefault(lit, i)
+        uniq = sorted(first.values())
+        if use_fast:
             # regenerated models, observed tables passed as numbers; rejected cases are classified below (list-based checkers)
             allchk = fasts[name][1]
-            bad = ctx.coq_cases(name, HDRF, fasts[name][0], allchk, shard=700)
-        else:
-            bad = ctx.coq_cases(name, hdr, cases, allchk, shard=700)
+        bad = ctx.coq_cases(name, HDRF if use_fast else hdr, [lits[i] for i in uniq], allchk, shard=700)
+        if bad is not None:
+            bad = [uniq[j] for j in bad]
         if not bad:
             if bad is not None:
-                ctx.cov["ties"][f"K:{name}"] = f"ok: {len(cases)} cases, truth tables and exact structure agree ({allchk})"
+                ctx.cov["ties"][f"K:{name}"] = (f"ok: {len(cases)} cases ({len(uniq)} distinct), truth tables and exact structure agree "
+                                                 f"({allchk})")
             continue
         sub = [cases[i] for i in bad[:300]]
         submeta = [meta[i] for i in bad[:300]]
